@@ -19,6 +19,7 @@ AMBIENT = {
     "os.environ", "os.getenv", "os.getcwd", "os.getpid", "random.random", "random.randint", "random.choice",
     "uuid.uuid4", "uuid.uuid1", "inspect.currentframe", "inspect.stack", "sys._getframe", "sys.modules",
     "socket.gethostname", "locale.getlocale", "time.tzname", "time.timezone",
+    "pendulum.parse",  # third-party fact: "now" and time-only text are completed from the current clock/date
 }  # fmt: skip
 
 
